@@ -42,7 +42,7 @@ CLAIMED = {
         "DESIGN.md §5 C16",
     ),
     "C13": (
-        ["Expander", "Gen_Expander", "Gen_ExpanderRep"],
+        ["Expander", "Gen_Expander", "Gen_ExpanderRep", "Gen_ExpanderPos"],
         "same expander twin; TLC enumerates pages x need_pre_expand sets x templates_to_expand/not_expand subsets x switches x hook policies, checks 'nothing selected => unchanged' and hook-count laws; "
         "each case replayed on the real expand() comparing the returned text and the exact hook call sequence",
         "Bounded-exhaustive over selections and hook policies (65k cases quick, 200k thorough): real output and the arguments the hooks receive must equal the twin's prediction.",
@@ -141,7 +141,7 @@ CLAIMED = {
         "DESIGN.md §5 C06, notes/C06.md",
     ),
     "C07": (
-        ["LuaTimeout", "MC_LuaTimeout", "Gen_LuaTimeout", "Trace_LuaTimeout", "LuaSession", "Gen_LuaSession"],
+        ["LuaTimeout", "MC_LuaTimeout", "Gen_LuaTimeout", "Trace_LuaTimeout", "LuaSession", "Gen_LuaSession", "LuaSessionLoad", "Gen_LuaSessionLoad"],
         "TLA+ small-step machine of the count hook / deadline / protected-call stack / coroutines with liveness DeadlinePassed ~> Done under weak fairness, plus big-step Pred(body, wrapper, Dev); TLC enumerates the program grammar with predicted outcome classes; "
         "every program rendered to Lua and run through expand(timeout=...) in child processes with a hard kill; event traces of running programs validated by a TLC trace spec; follow-up invocations compared with a fresh context",
         "Model checking incl. liveness of the ideal design; bounded-exhaustive program grammar (wrapper depth 2 quick / 3 thorough) on the real sandbox; outcomes must match what the property demands unless explained by one of four listed findings.",
